@@ -26,7 +26,10 @@ type capSvc struct{}
 
 func (capSvc) Nop(a bool, r *bool) error { return nil }
 func (p *capPlugin) Server(b *plugin.MuxBroker) (interface{}, error) {
-	p.ch <- b
+	select {
+	case p.ch <- b:
+	default: // later dispenses: the broker was already captured
+	}
 	return capSvc{}, nil
 }
 func (p *capPlugin) Client(b *plugin.MuxBroker, c *rpc.Client) (interface{}, error) { return b, nil }
@@ -90,6 +93,8 @@ type mtEvent struct {
 	// BulkAtMs > 0: keep the connection and, at that time, push 1 MiB through it in each direction
 	// against a slow reader, verifying content (bytes complete and in order on an aged connection)
 	BulkAtMs int `json:"bulk_at_ms,omitempty"`
+	// OffUs: microseconds after AtMs (the model's clock is in milliseconds; this only perturbs the real schedule)
+	OffUs int `json:"off_us,omitempty"`
 }
 type mtCase struct {
 	HostDials bool      `json:"host_dials"` // direction: the host end dials and the plugin end accepts, or the reverse
@@ -102,9 +107,9 @@ func init() { families["muxtimed"] = runMuxTimed }
 
 func genMuxTimed(o opts) []mtCase {
 	r := hk.Rng(o.seed + 71)
-	n := 20
+	n := 23
 	if o.tier == "thorough" {
-		n = 120
+		n = 123
 	}
 	fresh := func(c *mtCase, base int, k int) {
 		for j := 0; j < k; j++ {
@@ -153,6 +158,28 @@ func genMuxTimed(o opts) []mtCase {
 			}
 			c.Events = append(c.Events, a, d)
 			t = d.AtMs
+		}
+		fresh(&c, 9500, 1)
+		c.Horizon = 11000
+		cs = append(cs, c)
+	}
+	// bursts: the accept and the dial of every id are issued at the same instant, many ids at once (the slot of an id
+	// may be created by either side: both creations racing must still meet in one slot)
+	for k := 0; k < 3; k++ {
+		c := mtCase{HostDials: k%2 == 0, Kind: "burst"}
+		for wave := 0; wave < 4; wave++ {
+			t := 50 + 400*wave
+			for j := 0; j < 12; j++ {
+				id := uint32(30 + 12*wave + j)
+				// the dialled stream reaches the accepting side's Run some tens of microseconds after the dial is issued:
+				// spread the accepts over that range so that some of them look the slot up at the same moment
+				a, d := mtEvent{AtMs: t, Kind: "accept", ID: id, OffUs: 20 * ((j*7 + wave*3 + k) % 16)}, mtEvent{AtMs: t, Kind: "dial", ID: id}
+				if (j+k)%2 == 0 {
+					c.Events = append(c.Events, a, d)
+				} else {
+					c.Events = append(c.Events, d, a)
+				}
+			}
 		}
 		fresh(&c, 9500, 1)
 		c.Horizon = 11000
@@ -236,6 +263,11 @@ func runOneMuxTimed(c mtCase) (sx.V, sx.V) {
 	for i, e := range c.Events {
 		go func(i int, e mtEvent) {
 			time.Sleep(time.Until(start.Add(time.Duration(e.AtMs) * time.Millisecond)))
+			if e.OffUs > 0 {
+				for t := start.Add(time.Duration(e.AtMs)*time.Millisecond + time.Duration(e.OffUs)*time.Microsecond); time.Now().Before(t); {
+					runtime.Gosched()
+				}
+			}
 			var conn net.Conn
 			var err error
 			if e.Kind == "rawclose" {
